@@ -280,7 +280,7 @@ def sortChannels (hasChannel : Bool) (x : List CRow) : List Int :=
       if m < 0 then (c :: cs).map (· - m) else c :: cs
   else x.map fun _ => 1                                   -- `np.ones(len(x))`
 
-/-- `sort_key` of `_sort_by_time_and_channel` -/
+/-- `sort_key` of `_sort_by_time_and_channel` in exact (unbounded) integer arithmetic; the int64 version is `sortKeysW` -/
 def sortKeys (hasChannel : Bool) (x : List CRow) : List Int :=
   match x, sortChannels hasChannel x with
   | r :: rs, c :: cs =>
@@ -289,20 +289,80 @@ def sortKeys (hasChannel : Bool) (x : List CRow) : List Int :=
     ((r :: rs).zip (c :: cs)).map fun p => (p.1.time - tmin) * m1 + p.2
   | _, _ => []
 
-/-- the fast path of `sort_by_time(x)` (`_sort_by_time_and_channel`, stable argsort of one composite key) -/
+/-- the fast path with exact keys (specification side; the code's version is `sortByTimeFastW`) -/
 def sortByTimeFast (hasChannel : Bool) (x : List CRow) : List CRow :=
   (((sortKeys hasChannel x).zip x).mergeSort fun p q => decide (p.1 ≤ q.1)).map (·.2)
 
-/-- the guard `(x["time"].max() - x["time"].min()) > (np.iinfo(np.int64).max - 10) / (channel.max() + 1)`, in exact
-integer arithmetic: `span * (maxChannel + 1) > 2^63 - 11`.  The code divides and compares in float64, so it can
-disagree with this only when `span * (maxChannel + 1)` lies within a relative 2⁻⁵¹ of `2^63` (the harness stays
-away from that band); in that band the composite key may also overflow int64, which no model here exhibits. -/
+/-- the guard `(x["time"].max() - x["time"].min()) > (np.iinfo(np.int64).max - 10) / (channel.max() + 1)` as it was
+meant, in exact integer arithmetic: `span * (maxChannel + 1) > 2^63 - 11` (specification side; what the code
+evaluates is `sortTooLargeFloat`) -/
 def sortSpanTooLarge (hasChannel : Bool) (x : List CRow) : Bool :=
   match x, sortChannels hasChannel x with
   | r :: rs, c :: cs =>
     let times := rs.map (·.time)
     decide ((maxList r.time times - minList r.time times) * (maxList c cs + 1) > 2 ^ 63 - 11)
   | _, _ => false
+
+/-! #### int64 and float64 as the code uses them -/
+
+/-- two's-complement wrap-around of int64 arithmetic -/
+def wrap64 (k : Int) : Int := (k + 2 ^ 63) % 2 ^ 64 - 2 ^ 63
+
+/-- conversion of a natural number to float64: nearest value with a 53-bit significand, ties to even -/
+def fl53Nat (n : Nat) : Nat :=
+  if n < 2 ^ 53 then n
+  else
+    let e := n.log2 + 1 - 53
+    let q := n / 2 ^ e
+    let r := n % 2 ^ e
+    let half := 2 ^ (e - 1)
+    (if r > half ∨ (r = half ∧ q % 2 = 1) then q + 1 else q) * 2 ^ e
+
+/-- conversion of an int64 to float64 (as an exact integer) -/
+def fl53 (n : Int) : Int := if n < 0 then -((fl53Nat n.natAbs : Nat) : Int) else ((fl53Nat n.toNat : Nat) : Int)
+
+/-- smallest `k` with `m ≤ 2^k` -/
+def clog2 (m : Nat) : Nat := if m ≤ 1 then 0 else (m - 1).log2 + 1
+
+/-- `span > (2**63 - 11) / m` as numpy evaluates it: `2**63 - 11` becomes the float `2^63`, the quotient is rounded to
+53 bits (ties to even), `span` is converted to float64, then the two floats are compared.  With `e` the exponent of the
+quotient, the quotient is `a * 2^(e-52)` for the rounded integer `a`. -/
+def floatGuard (span m : Int) : Bool :=
+  let e := 63 - clog2 m.toNat
+  let n : Int := 2 ^ (115 - e)
+  let a := n / m
+  let r := n % m
+  let a' := if 2 * r > m ∨ (2 * r = m ∧ a % 2 = 1) then a + 1 else a
+  decide (fl53 span * 2 ^ 52 > a' * 2 ^ e)
+
+/-- `_time_range_too_large` as the code computes it (int64 subtraction, float64 division and comparison) -/
+def sortTooLargeFloat (hasChannel : Bool) (x : List CRow) : Bool :=
+  match x, sortChannels hasChannel x with
+  | r :: rs, c :: cs =>
+    let times := rs.map (·.time)
+    floatGuard (wrap64 (maxList r.time times - minList r.time times)) (maxList c cs + 1)
+  | _, _ => false
+
+/-- `sort_key` as numba computes it: every operation in int64 -/
+def sortKeysW (hasChannel : Bool) (x : List CRow) : List Int :=
+  match x, sortChannels hasChannel x with
+  | r :: rs, c :: cs =>
+    let tmin := minList r.time (rs.map (·.time))
+    let m1 := maxList c cs + 1
+    ((r :: rs).zip (c :: cs)).map fun p => wrap64 (wrap64 (wrap64 (p.1.time - tmin) * m1) + p.2)
+  | _, _ => []
+
+/-- the fast path of `sort_by_time(x)` (`_sort_by_time_and_channel`, stable argsort of one composite int64 key) -/
+def sortByTimeFastW (hasChannel : Bool) (x : List CRow) : List CRow :=
+  (((sortKeysW hasChannel x).zip x).mergeSort fun p q => decide (p.1 ≤ q.1)).map (·.2)
+
+/-- the inputs on which the code's float guard decides like the exact one and no int64 operation wraps: everything
+except (i) a band of relative width ≈ 2⁻⁵² around `span * (maxChannel + 1) = 2^63`, where the float guard still
+chooses the fast path although the key no longer fits (the key wraps and the result is not sorted), and (ii) spans
+≥ 2^63.  Hypothesis of the `sort_*` theorems; evaluated by the driver op `c17.sortreg`. -/
+def sortRegular (hasChannel : Bool) (x : List CRow) : Bool :=
+  (sortTooLargeFloat hasChannel x == sortSpanTooLarge hasChannel x) &&
+  (sortSpanTooLarge hasChannel x || sortKeysW hasChannel x == sortKeys hasChannel x)
 
 /-- `np.sort(x, kind="mergesort", order=("time", "channel"))` resp. `order=("time",)`: numpy compares the listed
 fields first and then breaks ties with the *remaining fields in dtype order* — here the single field `id` that stands
@@ -322,9 +382,34 @@ def isort (le : α → α → Bool) (l : List α) : List α := l.foldr (insertBy
 /-- the slow path of `sort_by_time` -/
 def sortByTimeSlow (hasChannel : Bool) (x : List CRow) : List CRow := isort (lexAllLeB hasChannel) x
 
-/-- `sort_by_time(x)` -/
-def sortByTime (hasChannel : Bool) (x : List CRow) : List CRow :=
+/-- `sort_by_time(x)` in exact arithmetic (specification side) -/
+def sortByTimeExact (hasChannel : Bool) (x : List CRow) : List CRow :=
   if sortSpanTooLarge hasChannel x then sortByTimeSlow hasChannel x else sortByTimeFast hasChannel x
+
+/-- `sort_by_time(x)` as the code computes it (without a channel field the channel array is `np.ones(len(x),
+dtype=np.int64)` since the D33 fix, so the key is an int64 on both branches) -/
+def sortByTime (hasChannel : Bool) (x : List CRow) : List CRow :=
+  if sortTooLargeFloat hasChannel x then sortByTimeSlow hasChannel x else sortByTimeFastW hasChannel x
+
+/-! ### `strax/sort_enforcement.py` -/
+
+/-- `stable_argsort(arr, kind)`: only `"mergesort"` is accepted (`SortingError` otherwise); indices of a stable sort -/
+def stableArgsort (kind : String) (arr : List Int) : Option (List Nat) :=
+  if kind != "mergesort" then none
+  else some ((arr.zipIdx.mergeSort fun p q => decide (p.1 ≤ q.1)).map (·.2))
+
+/-- `_sort_by_time_and_channel(x, channel, max_channel_plus_one, sort_kind)` -/
+def sortByTimeAndChannelKind (kind : String) (hasChannel : Bool) (x : List CRow) : Option (List CRow) :=
+  if kind != "mergesort" then none else some (sortByTimeFastW hasChannel x)
+
+/-- `_touching_windows(..., endtime_sort_kind)` -/
+def touchingWindowsCoreKind (kind : String) (things containers : List Row) (window : Int) : Option (List (Nat × Nat)) :=
+  if kind != "mergesort" then none else some (touchingWindowsCore things containers window)
+
+/-- `stable_sort(arr, kind)` on a plain integer array -/
+def stableSort (kind : String) (arr : List Int) : Option (List Int) :=
+  if kind != "mergesort" then none
+  else some (arr.mergeSort fun a b => decide (a ≤ b))
 
 /-! ### `split_touching_windows` -/
 
